@@ -7,6 +7,7 @@ Oracle: the property's clauses on the implementation's output with exact interva
 from __future__ import annotations
 
 import contextlib
+import os
 import io
 import math
 import random
@@ -28,6 +29,35 @@ ZONES = ["America/New_York", "Europe/Berlin", "Australia/Sydney", "America/Los_A
          "America/Chicago", "Pacific/Auckland"]
 # (year, month, day) a few days before a DST change, per zone family, plus plain dates
 STARTS = ["2021-03-08", "2021-10-28", "2021-01-11", "2021-06-15", "2021-03-22", "2021-09-20", "2021-04-01", "2021-11-01"]
+
+
+DST_LAST_DAY_ZONES = ["America/New_York", "Europe/Berlin", "Australia/Sydney", "America/Los_Angeles", "Pacific/Auckland",
+                      "America/Santiago", "America/Havana"]
+_DST_DAYS = {}
+
+
+def dst_days(tz):
+    """local dates of 2021-2022 on which the UTC offset at the start and at the end of the day differ"""
+    if tz not in _DST_DAYS:
+        days = pd.date_range("2021-01-01", "2022-12-31", freq="D")
+        loc = days.tz_localize(tz, ambiguous=True, nonexistent="shift_forward")
+        off = np.array([t.utcoffset().total_seconds() for t in loc])
+        # the day itself and the day after it (zones that change at midnight: the day after starts at 01:00)
+        _DST_DAYS[tz] = [days[i + k].strftime("%Y-%m-%d") for i in range(len(days) - 2) if off[i] != off[i + 1] for k in (0, 1)]
+    return _DST_DAYS[tz]
+
+
+def local_day_starts(a, b, inclusive):
+    """starts of the local calendar days from a's day to b's day; a day whose midnight does not exist starts at the first
+    instant that does, a repeated midnight counts at its first occurrence (zones that change at 00:00)"""
+    wall = pd.date_range(a.tz_localize(None).normalize(), b.tz_localize(None).normalize(), freq="D", inclusive=inclusive)
+    return wall.tz_localize(a.tz, ambiguous=True, nonexistent="shift_forward")
+
+
+def raised_in_implementation(e):
+    """does the traceback pass through the package under test?"""
+    import traceback
+    return any("/opendsm/" in fr.filename for fr in traceback.extract_tb(e.__traceback__))
 
 
 def quiet(f, *a, **k):
@@ -90,6 +120,20 @@ def gen_billing(rng: random.Random):
     dates = [start]
     for L in lens:
         dates.append((dates[-1].tz_localize(None) + pd.Timedelta(days=L)).tz_localize(tz))
+    if rng.random() < 0.25:
+        # directed: the LAST DAY of the final period is a day on which the clocks change (23 or 25 hours,
+        # in some zones starting at a midnight that does not exist) — the read calendar is built backwards from it
+        tz2 = rng.choice(DST_LAST_DAY_ZONES)
+        last = pd.Timestamp(rng.choice(dst_days(tz2))) + pd.Timedelta(days=1)
+        wall = [last]
+        for L in reversed(lens):
+            wall.append(wall[-1] - pd.Timedelta(days=L))
+        try:
+            # every read must be AT a local midnight that exists exactly once (the property's quantifier); a calendar with a
+            # read on a skipped or repeated midnight (zones that change at 00:00) is not generated
+            dates, tz = [w.tz_localize(tz2) for w in reversed(wall)], tz2
+        except Exception:
+            pass
     vals = [Fraction(rng.randrange(200, 4000), rng.choice([1, 2, 4])) for _ in lens]
     if rng.random() < 0.25 and len(vals) > 2:
         vals[rng.randrange(1, len(vals) - 1)] = None     # a missing bill in the middle (at either end it only trims the series)
@@ -145,7 +189,7 @@ def billing_reads_line(case, dates, vals):
     present = [(d, v) for d, v in zip(dates[:-1], vals) if v is not None]
     present_dates = [d for d, _ in present] + [dates[-1]]
     cyc = billing_cycle([d for d, _ in present])
-    bounds = pd.date_range(dates[0].normalize(), dates[-1].normalize(), freq="D")
+    bounds = local_day_starts(dates[0], dates[-1], inclusive="both")
     wall = lambda d: minute(d.tz_localize(None))
     reads = [f"{minute(d)}:{wall(d)}:{frac_str(v)}" for d, v in present] + [f"{minute(dates[-1])}:{wall(dates[-1])}:nan"]
     return cyc, bounds, " ".join(["resample", cyc or "billing_monthly", ",".join(str(minute(b)) for b in bounds)] + reads), present
@@ -165,7 +209,7 @@ def oracle_billing(case, data, dates, vals):
     for (a, v), b in zip(present, ends):
         ndays = (b.tz_localize(None) - a.tz_localize(None)).days          # local calendar days
         rows = df.loc[(df.index >= a) & (df.index < b), "observed"]
-        nloc = len(pd.date_range(a, b, freq="D", inclusive="left"))
+        nloc = len(local_day_starts(a, b, inclusive="left"))
         if 25 <= ndays <= hi:
             total_valid += v
             if len(rows) != nloc or rows.isna().any():
@@ -226,16 +270,42 @@ def gen_subdaily(rng: random.Random):
         missing.update(rng.sample(range(1, n - 1), rng.choice([1, 2, 5])))
     missing.discard(0)
     missing.discard(n - 1)
-    return dict(kind="subdaily", tz=tz, freq=freq, start=idx[0].isoformat(), n=n, values=[str(v) for v in vals],
+    case = dict(kind="subdaily", tz=tz, freq=freq, start=idx[0].isoformat(), n=n, values=[str(v) for v in vals],
                 missing=sorted(missing), how=how, electric=electric, entry=rng.choice(["frame", "from_series"]),
                 cls=rng.choice(["baseline", "reporting"]), gap_style=style)
+    if rng.random() < 0.2:
+        # a meter whose reading interval changes part-way (e.g. hourly, then 15-minute after a meter swap): whole days at
+        # `freq`, then whole days at `freq2`; no gaps, start at local midnight, so every day but the last is fully covered
+        start = start.normalize()
+        freq, freq2 = rng.choice([(60, 15), (60, 30), (30, 15), (15, 60), (30, 60), (15, 30)])
+        coarse, fine = max(freq, freq2), min(freq, freq2)
+        dfine = rng.choice([1, 2])
+        # mostly: the coarse stretch has MORE readings than the fine one (so the typical spacing of the series is the coarse one)
+        dcoarse = dfine * (coarse // fine) + rng.choice([1, 2]) if rng.random() < 0.65 else rng.choice([1, 2, 3])
+        d1, d2 = (dcoarse, dfine) if freq == coarse else (dfine, dcoarse)
+        mid = (start.tz_localize(None) + pd.Timedelta(days=d1)).tz_localize(tz)
+        end = (start.tz_localize(None) + pd.Timedelta(days=d1 + d2)).tz_localize(tz)
+        k = len(pd.date_range(start, mid, freq=f"{freq}min", inclusive="left"))
+        n = k + len(pd.date_range(mid, end, freq=f"{freq2}min", inclusive="left"))
+        case.update(freq=freq, switch=[k, freq2], start=start.isoformat(), n=n, missing=[], how="nan", gap_style="interval_switch",
+                    values=[str(Fraction(rng.randrange(1, 64), 8)) for _ in range(n)], entry="from_series")
+    return case
+
+
+def subdaily_index(case):
+    start = pd.Timestamp(case["start"]).tz_convert(case["tz"])
+    if not case.get("switch"):
+        return pd.date_range(start, periods=case["n"], freq=f"{case['freq']}min")
+    k, freq2 = case["switch"]
+    a = pd.date_range(start, periods=k, freq=f"{case['freq']}min")
+    b = pd.date_range(a[-1] + pd.Timedelta(minutes=case["freq"]), periods=case["n"] - k, freq=f"{freq2}min")
+    return a.append(b)
 
 
 def run_subdaily(case):
     from opendsm.eemeter.models.daily.data import DailyBaselineData, DailyReportingData
     tz = case["tz"]
-    start = pd.Timestamp(case["start"]).tz_convert(tz)
-    idx = pd.date_range(start, periods=case["n"], freq=f"{case['freq']}min")
+    idx = subdaily_index(case)
     vals = [Fraction(v) for v in case["values"]]
     obs = np.array([float(v) for v in vals])
     miss = set(case["missing"])
@@ -246,7 +316,7 @@ def run_subdaily(case):
         for i in miss:
             obs[i] = np.nan
     meter = pd.Series(obs, index=idx, name="observed")
-    temp = pd.Series(55.0, index=idx, name="temperature")
+    temp = pd.Series(55.0, index=idx if not case.get("switch") else pd.date_range(idx[0], idx[-1], freq="h"), name="temperature")
     if case["how"] == "absent":
         meter = meter.dropna()
     cls = DailyBaselineData if case["cls"] == "baseline" else DailyReportingData
@@ -285,6 +355,8 @@ def oracle_subdaily(case, data, idx, vals, miss):
         d0 = rows[0][1].normalize()
         d1 = (d0.tz_localize(None) + pd.Timedelta(days=1)).tz_localize(case["tz"])
         total_slots = int(round((d1 - d0).total_seconds() / 60 / step))
+        if case.get("switch"):
+            total_slots = len(rows)          # no gaps, whole days at one interval each: every day is fully covered by its own readings
         present = [(i, t, v) for i, t, v in rows if i not in miss]
         n_present = len(present)
         s = sum((v for _, _, v in present), Fraction(0))
@@ -387,6 +459,8 @@ def one_case(case, res, sigs, lines, metas):
             fails = run_daily(case)
             sigs.add(("daily", case["tz"], case["entry"], case["cls"], bool(case["missing"])))
     except Exception as e:  # noqa
+        if not raised_in_implementation(e):
+            raise                                   # an error of the harness itself is an infrastructure failure, never a violation
         fails = [("accepted", dict(error=f"{type(e).__name__}: {e}"[:300]))]
     if fails:
         res["oracle_failures"].append(dict(case=case, clause=fails[0][0], detail=fails[0][1], n_clauses_failed=len(fails)))
@@ -400,8 +474,14 @@ def run(ctx):
     res = dict(evaluations=0, disagreements=[], oracle_failures=[], finding_instances={}, samples=[], hist={}, traces=0)
     sigs = set()
     lines, metas = [], []
-    for case in ctx.get("corpus", []):
-        one_case(case, res, sigs, lines, metas)
+    # corpus first: the witnesses of the repaired defects (a fixed entry suppresses nothing; if one returns it is a violation)
+    import json as _json
+    kf = _json.load(open(os.path.join(core.VERIF, "known_findings.json")))["findings"]
+    for e in kf:
+        c = (e.get("witness") or {}).get("case")
+        if e["property"] == "C08" and e["status"] == "fixed" and isinstance(c, dict) and c.get("kind") in ("billing", "subdaily", "daily"):
+            one_case(c, res, sigs, lines, metas)
+            res["hist"]["corpus"] = res["hist"].get("corpus", 0) + 1
     n = int((96 if not thorough else 1200) * scale)
     for i in range(n):
         gen = [gen_billing, gen_subdaily, gen_subdaily, gen_daily][i % 4] if i % 12 != 11 else gen_billing
